@@ -147,6 +147,10 @@ pub fn ptr_within<T, C>(r: *const T, c: *const C) -> bool {
 #[inline(always)]
 pub unsafe fn garbage<T>() -> T {
     let mut slot = core::mem::MaybeUninit::<T>::uninit();
+    // engine K: uninitialised memory is already nondeterministic in Kani's model (a byte loop would need its own unwind bound)
+    #[cfg(not(kani))]
     havoc(slot.as_mut_ptr() as *mut u8, core::mem::size_of::<T>());
+    #[cfg(kani)]
+    let _ = &mut slot;
     slot.assume_init()
 }
